@@ -298,7 +298,7 @@ func execPPool(f []string) (string, string) {
 	return obs, "real+" + tag
 }
 
-var ppStepKinds = []string{"g", "g", "g", "g", "gf", "gw", "gn", "gc", "gt", "gx", "gx", "t", "t", "t", "t", "tf", "tb", "ta", "r", "r", "rf"}
+var ppStepKinds = []string{"g", "g", "g", "g", "gf", "gw", "gn", "gc", "gt", "gx", "gx", "ps", "pr", "pr", "t", "t", "t", "t", "tf", "tb", "ta", "r", "r", "rf"}
 
 func genPPool(r *hx.Rng) string {
 	size := r.Range(1, 4)
